@@ -79,10 +79,26 @@ Proof.
   apply strict_bind; [assumption|]. intros; constructor.
 Qed.
 
-Theorem api_read_compound_strict fuel addr walk : strict (api_read_compound sb fuel addr walk).
+Lemma p_dataset_raw_gated_strict fuel ms gate : strict (p_dataset_raw_gated sb fuel ms gate).
+Proof. unfold p_dataset_raw_gated. strict_auto. apply p_dataset_raw_strict. Qed.
+
+Theorem api_read_strings_strict fuel addr : strict (api_read_strings sb fuel addr).
 Proof.
-  unfold api_read_compound. apply strict_bind; [apply (api_read_raw_strict sb Hl)|]. intros raw.
-  apply strict_bind; [apply p_steps_strict|]. intros; constructor.
+  unfold api_read_strings. apply strict_bind; [auto|]. intros h.
+  apply st_swallow_ignore.
+  - apply strict_bind; [apply (p_attrs_strict sb Hl)|intros; constructor].
+  - reflexivity.
+  - apply p_dataset_raw_gated_strict.
+Qed.
+
+Theorem api_read_compound_strict fuel addr ctype walk : strict (api_read_compound sb fuel addr ctype walk).
+Proof.
+  unfold api_read_compound. apply strict_bind; [auto|]. intros h.
+  apply st_swallow_ignore.
+  - apply strict_bind; [apply (p_attrs_strict sb Hl)|intros; constructor].
+  - reflexivity.
+  - apply strict_bind; [apply p_dataset_raw_gated_strict|]. intros raw.
+    apply strict_bind; [apply p_steps_strict|]. intros; constructor.
 Qed.
 
 Theorem api_read_attribute_strict fuel addr walk : strict (api_read_attribute sb fuel addr walk).
@@ -125,9 +141,12 @@ Proof. intros H fuel addr cd dims coord. apply strict_damage_ok, api_chunk_stric
 Lemma chunk_iterate_damage sb : valid_size (spp_lensize sb) = true -> forall fuel addr,
   damage_ok (api_chunk_iterate sb fuel addr).
 Proof. intros H fuel addr. apply strict_damage_ok, api_chunk_iterate_strict, H. Qed.
-Lemma read_compound_damage sb : valid_size (spp_lensize sb) = true -> forall fuel addr walk,
-  damage_ok (api_read_compound sb fuel addr walk).
-Proof. intros H fuel addr walk. apply strict_damage_ok, api_read_compound_strict, H. Qed.
+Lemma read_compound_damage sb : valid_size (spp_lensize sb) = true -> forall fuel addr ctype walk,
+  damage_ok (api_read_compound sb fuel addr ctype walk).
+Proof. intros H fuel addr ctype walk. apply strict_damage_ok, api_read_compound_strict, H. Qed.
+Lemma read_strings_damage sb : valid_size (spp_lensize sb) = true -> forall fuel addr,
+  damage_ok (api_read_strings sb fuel addr).
+Proof. intros H fuel addr. apply strict_damage_ok, api_read_strings_strict, H. Qed.
 Lemma read_attribute_damage sb : valid_size (spp_lensize sb) = true -> forall fuel addr walk,
   damage_ok (api_read_attribute sb fuel addr walk).
 Proof. intros H fuel addr walk. apply strict_damage_ok, api_read_attribute_strict, H. Qed.
